@@ -136,6 +136,24 @@ func (ww *WW) MonitorSigs() {
 					if crypto.Verify(o.Secret, scalarToPriv(d.Priv[altAmount(sg.Amount)]), Cp) {
 						W.Book.Violate("C10.verifies_under_other_key", sg.Via, "unblinded signature verifies under the key of another denomination")
 					}
+					// "... and fails verification under any other key, secret or point": the points and
+					// keys most closely related to the right ones
+					var negC secp256k1.JacobianPoint
+					Cp.AsJacobian(&negC)
+					negC.Y.Negate(1).Normalize()
+					negC.ToAffine()
+					if crypto.Verify(o.Secret, scalarToPriv(k), secp256k1.NewPublicKey(&negC.X, &negC.Y)) {
+						W.Book.Violate("C10.verifies_other_point", sg.Via+"|-C", "the negated point -C verifies as signature under the same key and secret")
+					}
+					var negK secp256k1.ModNScalar
+					negK.Set(k).Negate()
+					if crypto.Verify(o.Secret, scalarToPriv(&negK), Cp) {
+						W.Book.Violate("C10.verifies_under_other_key", sg.Via+"|n-k", "the signature verifies under the negated key n-k")
+					}
+					if crypto.Verify(o.Secret+"x", scalarToPriv(k), Cp) {
+						W.Book.Violate("C10.verifies_other_secret", sg.Via, "the signature verifies for another secret")
+					}
+					ww.rc.S.Probe("c10_related_point_key_checked")
 					// gonuts' own unblinding agrees
 					lib := crypto.UnblindSignature(C_, scalarToPriv(o.R), K)
 					if pointHex(lib) != C {
